@@ -34,6 +34,11 @@ def main ():
     budget.shutdown()
   except Exception:
     pass
+  try:
+    from pvm import ilv
+    ilv.shutdown()
+  except Exception:
+    pass
   sys.stdout.flush()
   import os
   os._exit(0)
